@@ -9,9 +9,9 @@ HERE = os.path.dirname(os.path.dirname(os.path.abspath(__file__)))
 # id -> (category, technique, level text, level note, design ref)
 CLAIMED = {
     'C19': ('exploration',
-            'exhaustive small-scope enumeration + Hypothesis generation against a validity predicate',
+            'exhaustive small-scope enumeration + Hypothesis generation against a validity predicate (supplementary: coverage-guided atheris units on the same predicate)',
             'Every size sequence of length <=3 (quick) / <=4 (thorough) over batch sizes 0..5 x target 1..6 x 1..3 '
-            'columns x list/tuple/ndarray x pad x num_columns is enumerated against the conservation/size/alignment '
+            'columns x list/tuple/1-d and 2-d ndarray x pad x num_columns is enumerated against the conservation/size/alignment '
             'predicate; Hypothesis covers longer streams and the TreeTransform re-batching options. Exploration is the '
             'right level: the property is a pure function of a small input and an executable validity predicate exists.',
             'cells encode (row, column) so any loss/duplication/misalignment is visible; columns of an input batch have '
@@ -32,7 +32,8 @@ CLAIMED = {
             'snapshot, result equals the reference set, get-after-set returns the value, every unrelated leaf is the same object, '
             're-setting the current value is a no-op; views: leaf enumeration vs reference DFS, multi-key alignment, Literal/SELF/'
             'SKIP, key_paths, apply(map_fn), copy_and_update. Pure data-structure laws with an executable reference: exploration.',
-            'reference model in vlib/oracles/tree_ref.py; root is a container; reserved words are not used as dict keys.',
+            'reference model in vlib/oracles/tree_ref.py; root is a container; the plain strings SELF/SKIP are ordinary dict keys; the '
+            'same inner container may appear at two paths (never inside itself).',
             '§3 C18'),
     'C07': ('exploration',
             'Hypothesis-generated (metric, configuration, batch) cases against an independent plain-Python reference; alias/range/function-API metamorphic checks',
@@ -74,7 +75,9 @@ CLAIMED = {
             'tuple, Key path, Index, dict kwargs, dict renaming, SELF, SKIP, Literal) and run through iterate(), a data source and the '
             'per-record call; outputs must equal the reference interpreter, caller records must equal their deep-copied snapshot, '
             'values untouched by assign/filter/sink must be the identical objects, every sink must have seen exactly the reference '
-            'stream once and be closed. 19 families of documented invalid combinations must raise while building/making, before an '
+            'stream once and be closed; select/apply/assign with batch_size over caller-owned list/array/tuple columns must emit the '
+            're-batched stream and leave the caller\'s records, their column objects and an upstream sink\'s records unchanged. '
+            '19 families of documented invalid combinations must raise while building/making, before an '
             'element is pulled. A reference interpreter over generated programs is the natural exploration-level oracle.',
             'functions of known arity/result shape from vlib/targets.py; batch(n) groups the current output keys as documented.',
             '§3 C08'),
@@ -142,7 +145,9 @@ CLAIMED = {
             'timeout configured. Invariants: every consumer ends with the producer\'s exception (never StopIteration, never '
             'blocked), nothing is delivered twice, all other producers return and the failing one re-raises; after a stop every '
             'thread finishes; the starved side raises TimeoutError at the virtual deadline; no explored schedule ends with a blocked '
-            'thread. Fault positions and schedules are enumerated/sampled, so fault_enumeration is the level.',
+            'thread. A second scenario runs an AsyncIteratorQueue with 1..3 async producers on a real event loop, one failing while '
+            'the others are parked inside their iterators: every consumer must see the exception meanwhile. Fault positions and '
+            'schedules are enumerated/sampled, so fault_enumeration is the level.',
             'same scheduler trusted base as C04; stalls are long virtual sleeps so only the configured timeout can end them.',
             '§2.2, §3 C05'),
     'C13': ('exploration',
@@ -164,8 +169,12 @@ CLAIMED = {
             'stop_prefetch or request shutdown at a schedule-chosen point. The answers must concatenate to exactly the generator\'s '
             'elements in order, each once, followed by exactly one terminal marker (StopIteration(ret) or the generator\'s own '
             'exception after all elements produced before it), never mix two generators after a re-init returned, end with a '
-            'retriable TimeoutError after stop/shutdown, and no request may block forever (structural deadlock detection).',
-            'same scheduler trusted base as C04; handlers are called directly, one client per generator at a time.',
+            'retriable TimeoutError after stop/shutdown, and no request may block forever (structural deadlock detection). Two '
+            'further scenarios: two overlapping init_generator requests under generated schedules (the installed generator is '
+            'delivered faithfully, no prefetch thread of a replaced generator stays blocked), and the client side of the protocol '
+            '(CourierClient.async_iterate against the real server over the in-process transport: elements, return value once, or '
+            'the generator\'s exception type and message).',
+            'same scheduler trusted base as C04; in the scheduler scenarios handlers are called directly.',
             '§2.2, §3 C15'),
     'C20': ('exploration',
             'model-based histories for the heartbeat registry (parked/late replies on a fake transport, harness clock); ownership histories of several pools over generated thread schedules on the deterministic scheduler; pool-level operations on the fake transport',
